@@ -10,7 +10,7 @@
    All statements quantify over the oracle tables (what YAML parsing sees), the chooser (Go's map
    iteration order), the fuel, all three arguments, ALL fault positions and all well-formed states. *)
 From KV Require Import Fs.LocPath Fs.LocPathProofs Fs.Localize Fs.LocalizeProofs Fs.LocalizeExamples.
-From KV Require Import Fs.LocalizeBuild Fs.LocalizeBuildProofs.
+From KV Require Import Fs.LocalizeBuild Fs.LocalizeBuildProofs Fs.LocalizeMirrorProofs.
 From KV Require Res.Pipeline.
 Open Scope list_scope.
 
@@ -140,10 +140,10 @@ Print Assumptions C18_equivalent_partial.
    PROVED: for EVERY pair of states related by mirror_ok, the tree read from the destination is the
    tree read from the source, so Pipeline.build gives the same result whatever YAML parsing yields
    ([docs]) and whatever the non-path directives are.
-   CHECKED, not proved: that the final state of a successful run satisfies mirror_ok and that the
-   destination reads whenever the source does — Corr/C18.v evaluates both on the final state of every
-   successful run (fault-free or not) of every case, and that state is compared with the
-   implementation's.  Outside: patches, generators with file sources, configurations, openapi path —
+   That the final state of a successful run satisfies mirror_ok is PROVED for the resources-only
+   fragment (C18_localize_mirrors_partial below) and additionally evaluated by Corr/C18.v on the final
+   state of every successful run of every case (all fields); that the destination reads whenever the
+   source does is checked there, not proved.  Outside: patches, generators with file sources, configurations, openapi path —
    Pipeline.v has no syntax for them (they are covered per reference by C18_equivalent_partial and on
    the implementation by the krusty.Run oracle). *)
 Theorem C18_equivalent_build_partial :
@@ -157,6 +157,56 @@ Theorem C18_equivalent_build_partial :
         Pipeline.build nonstr o (to_ptree docs dirs t') = Pipeline.build nonstr o (to_ptree docs dirs t).
 Proof. exact mirror_build_eq. Qed.
 Print Assumptions C18_equivalent_build_partial.
+
+(* A successful localize run ends in a faithful image of the source — PROVED for the resources-only
+   fragment (every file the YAML oracle reads as a kustomization has no path-bearing field besides
+   `resources`; no file is both a kustomization and a resource).  Domain: well-formed, parent-closed
+   source state; newDir fresh, beside the scope (neither contains the other), its ancestors existing.
+   Any fault position that still lets the run succeed, any map-iteration order.
+   FULL statement would drop the fragment hypothesis (all 18 path-bearing fields); missing: the image
+   relation and the handlers' content-aware invariants for the other fields. *)
+Theorem C18_localize_mirrors_partial :
+  forall orc ch fuel target scope newdir fault s w d,
+    fs_wf s ->
+    ancestors_dirs (newdir_path target newdir) s ->
+    is_prefix (newdir_path target newdir) (scope_path target scope) = false ->
+    is_prefix (scope_path target scope) (newdir_path target newdir) = false ->
+    (forall p e k, lookup p s = Some e -> 0 < k < List.length p -> lookup (firstn k p) s = Some EDir) ->
+    lookup [] s = None ->
+    (forall x, lookup (newdir_path target newdir ++ x) s = None) ->
+    (forall id k, o_kust orc id = Some k -> resources_only k = true) ->
+    (forall id, o_res orc id = true -> o_kust orc id = None) ->
+    run_localize orc ch fuel target scope newdir fault s = (w, OOk d) ->
+    mirror_ok orc (scope_path target scope) (newdir_path target newdir) s (w_fs w) = true /\
+    good_path (scope_path target scope) = true /\ good_path (newdir_path target newdir) = true /\
+    fs_wf (w_fs w) /\
+    exists r, good_path r = true /\ query_comps target = scope_path target scope ++ r.
+Proof. exact localize_mirrors. Qed.
+Print Assumptions C18_localize_mirrors_partial.
+
+(* … which closes the build equivalence without any per-run check: for every successful run of the
+   fragment, the tree a build loads from the destination's target and the tree it loads from the
+   source target give the same Pipeline.build output. *)
+Theorem C18_equivalent_build :
+  forall orc ch fuel target scope newdir fault s w d,
+    fs_wf s ->
+    ancestors_dirs (newdir_path target newdir) s ->
+    is_prefix (newdir_path target newdir) (scope_path target scope) = false ->
+    is_prefix (scope_path target scope) (newdir_path target newdir) = false ->
+    (forall p e k, lookup p s = Some e -> 0 < k < List.length p -> lookup (firstn k p) s = Some EDir) ->
+    lookup [] s = None ->
+    (forall x, lookup (newdir_path target newdir ++ x) s = None) ->
+    (forall id k, o_kust orc id = Some k -> resources_only k = true) ->
+    (forall id, o_res orc id = true -> o_kust orc id = None) ->
+    run_localize orc ch fuel target scope newdir fault s = (w, OOk d) ->
+    exists r, query_comps target = scope_path target scope ++ r /\
+      forall fuel1 fuel2 t t',
+        read_tree orc fuel1 (w_fs w) (newdir_path target newdir ++ r) = Some t' ->
+        read_tree orc fuel2 s (query_comps target) = Some t ->
+        forall nonstr docs dirs o,
+          Pipeline.build nonstr o (to_ptree docs dirs t') = Pipeline.build nonstr o (to_ptree docs dirs t).
+Proof. exact localize_build_eq. Qed.
+Print Assumptions C18_equivalent_build.
 
 (* ---- obligations over the tables regenerated from /repo (Gen/LocalizeTables.v) ---- *)
 
